@@ -511,8 +511,8 @@ func onlyConnEntries(es []Entry) bool {
 // replies to earlier requests are still on their way out (the writer is stalled, the
 // client has not collected them). Everything the server sends behind the Rversion
 // fits the new msize, however many requests follow.
-func c12Renegotiate(srvMsize, newMsize uint32, pending int, stallAt int, dotu bool) Scenario {
-	name := fmt.Sprintf("renegotiate-in-use %d->%d with %d replies not yet out (writer stalled at +%d) dotu=%v", srvMsize, newMsize, pending, stallAt, dotu)
+func c12Renegotiate(srvMsize, newMsize uint32, burst, pending int, stallAt int, dotu bool) Scenario {
+	name := fmt.Sprintf("renegotiate-in-use %d->%d after a burst of %d, with %d replies not yet out (writer stalled at +%d) dotu=%v", srvMsize, newMsize, burst, pending, stallAt, dotu)
 	return Scenario{Name: name, Run: func(rc *RunCtx) *Result {
 		res := &Result{Exhaustive: true}
 		var fail string
@@ -530,6 +530,15 @@ func c12Renegotiate(srvMsize, newMsize uint32, pending int, stallAt int, dotu bo
 			for i := 0; i < 3; i++ {
 				c.Rpc(&wire.Msg{Type: wire.Tstat, Tag: uint16(10 + i), Fid: 0})
 			}
+			// ... and a burst of requests in flight at once: that many buffers end up in the pool
+			var bm []*wire.Msg
+			for i := 0; i < burst; i++ {
+				bm = append(bm, &wire.Msg{Type: wire.Tstat, Tag: uint16(30 + i), Fid: 0})
+			}
+			if burst > 0 {
+				c.Send(dotu, bm...)
+				vs.Idle()
+			}
 			before := len(c.Collect())
 			if stallAt >= 0 {
 				c.SrvEnd.StallOutgoingAt(c.SrvEnd.WriteOffset() + stallAt)
@@ -542,7 +551,7 @@ func c12Renegotiate(srvMsize, newMsize uint32, pending int, stallAt int, dotu bo
 			vs.Idle()
 			c.SrvEnd.UnstallOutgoing()
 			vs.Idle()
-			for i := 0; i < pending+6; i++ {
+			for i := 0; i < pending+burst+6; i++ {
 				k := reqKey{0, uint16(40 + i), 0}
 				var m *wire.Msg
 				switch i % 3 {
@@ -623,9 +632,10 @@ func c12Scenarios(tier string) []Scenario {
 	for _, pending := range []int{0, 1, 3} {
 		for _, at := range []int{-1, 0, 70, 140} {
 			i++
-			out = append(out, c12Renegotiate(8216, []uint32{64, 256}[i%2], pending, at, i%3 == 0))
+			out = append(out, c12Renegotiate(8216, []uint32{64, 256}[i%2], []int{0, 2, 5}[i%3], pending, at, i%3 == 0))
 		}
 	}
+	out = append(out, c12Renegotiate(8216, 64, 3, 0, -1, false), c12Renegotiate(8216, 256, 8, 0, -1, true))
 	out = append(out, c12ClientScenarios(tier)...)
 	return out
 }
